@@ -881,8 +881,15 @@ func c04Emit(cs *vfCases, run *c04Run, meta map[string]any) {
 	default:
 		res = "OError"
 	}
-	term := fmt.Sprintf("{| c_client := %s; c_op := %s; c_now := %d; c_quorum := %d%%nat; c_local := %s;\n   c_node := %s;\n   c_arrivals := %s;\n   c_stream := %s; c_result := %s |}",
-		client, op, c04T, quorum, local, node, vfList(arr), c04CoqVals(o.Stream), res)
+	seen := map[int]bool{}
+	for _, a := range o.Arrivals {
+		if a.Delivered {
+			seen[a.Peer] = true
+		}
+	}
+	complete := len(seen) == len(s.Resps)
+	term := fmt.Sprintf("{| c_client := %s; c_op := %s; c_now := %d; c_quorum := %d%%nat; c_local := %s;\n   c_node := %s;\n   c_arrivals := %s;\n   c_complete := %s; c_stream := %s; c_result := %s |}",
+		client, op, c04T, quorum, local, node, vfList(arr), vfBool(complete), c04CoqVals(o.Stream), res)
 	tags := []string{s.Client, s.Op}
 	for tg := range run.tags {
 		tags = append(tags, tg)
